@@ -279,3 +279,489 @@ Proof.
   cbn in R4.
   do 5 (destruct k as [|k]; [constructor; try solve [upd_solve] |]); lia.
 Qed.
+
+(* ---------- restart repair from any half-done state, itself interruptible ---------- *)
+Lemma remove_writes_mid : forall s p t b, mid s (p :: t) b -> pre b = hash p -> pre b <> hash b ->
+  remove_writes s b = remove_pfx b ++ [WCur p; WDelRmMark].
+Proof.
+  intros s p t b M Hpre Hne. unfold remove_writes. cbn [remove_pfx apply fold_left apply1 byHash].
+  unfold upd. destruct (N.eqb_spec (pre b) (hash b)); [congruence|].
+  rewrite (m_hash _ _ _ M) by auto. rewrite Hpre, findH_cons, N.eqb_refl. reflexivity.
+Qed.
+
+Lemma recover_writes_mid : forall s p t b, chain_ok (p :: t) -> top_ok (p :: t) b -> mid s (p :: t) b ->
+  recover_writes s =
+    match amark s with
+    | Some _ => remove_pfx b ++ [WCur p; WDelRmMark; WDelAddMark]
+    | None => remove_pfx b ++ [WCur p; WDelRmMark; WDelRmMark]
+    end.
+Proof.
+  intros s p t b Hc Ht M.
+  destruct (top_facts _ b Hc Ht) as [p' [t' [E [Hpre [Hne [Hne2 _]]]]]]. inversion E; subst p' t'.
+  unfold recover_writes. destruct (m_amark _ _ _ M) as [Ha|Ha]; rewrite Ha.
+  - destruct (m_mark _ _ _ M) as [Hx|Hr]; [congruence|].
+    cbn [apply fold_left app]. rewrite Hr. rewrite (remove_writes_mid _ _ _ _ M Hpre Hne2). reflexivity.
+  - rewrite (remove_writes_mid _ _ _ _ M Hpre Hne2). cbn. reflexivity.
+Qed.
+
+Lemma recover_mid : forall s l b, chain_ok l -> top_ok l b -> mid s l b ->
+  forall j, quasi (crash j (recover_writes s) s) l /\ ((7 <= j)%nat -> rep (crash j (recover_writes s) s) l).
+Proof.
+  intros s l b Hc Ht M j.
+  destruct (top_facts l b Hc Ht) as [p [t [-> [Hpre [Hne [Hne2 [HT [HF [Hc' Hlt]]]]]]]]].
+  rewrite (recover_writes_mid _ _ _ _ Hc Ht M).
+  assert (HV : option_map hash (findT (height b) (p :: t)) = None) by now rewrite HT.
+  pose proof M as [M1 M2 M3 M4 M5 M6 M7 M8 M9 M10 M11].
+  assert (Q0 : quasi s (p :: t)) by (right; exists b; auto).
+  destruct M2 as [Ha|Ha]; rewrite Ha.
+  - (* only the remove mark *)
+    destruct M1 as [Hx|Hr]; [congruence|].
+    destruct j as [|j]. { split; [exact Q0|lia]. }
+    do 5 (destruct j as [|j]; [split; [right; exists b; split; [exact Ht|constructor; try solve [upd_solve]]|lia]|]).
+    destruct j as [|j].
+    { assert (R : rep (crash 6 (remove_pfx b ++ [WCur p; WDelRmMark; WDelRmMark]) s) (p :: t))
+        by (constructor; try solve [upd_solve]).
+      split; [left|intro]; exact R. }
+    assert (R : rep (apply (remove_pfx b ++ [WCur p; WDelRmMark; WDelRmMark]) s) (p :: t))
+      by (constructor; try solve [upd_solve]).
+    rewrite crash_all by (cbn; lia). split; [left|intro]; exact R.
+  - (* add mark (and perhaps the remove mark of an interrupted repair) *)
+    destruct j as [|j]. { split; [exact Q0|lia]. }
+    do 6 (destruct j as [|j]; [split; [right; exists b; split; [exact Ht|constructor; try solve [upd_solve]]|lia]|]).
+    assert (R : rep (apply (remove_pfx b ++ [WCur p; WDelRmMark; WDelAddMark]) s) (p :: t))
+      by (constructor; try solve [upd_solve]).
+    rewrite crash_all by (cbn; lia). split; [left|intro]; exact R.
+Qed.
+
+Lemma recover_writes_rep : forall s l, rep s l -> recover_writes s = [].
+Proof.
+  intros s l R. unfold recover_writes. rewrite (r_amark _ _ R). cbn. now rewrite (r_rmark _ _ R).
+Qed.
+
+Lemma firstn_nil_crash : forall j s, crash j [] s = s.
+Proof. intros. unfold crash. now rewrite firstn_nil. Qed.
+
+Lemma recover_quasi : forall s l, chain_ok l -> quasi s l ->
+  (forall j, quasi (crash j (recover_writes s) s) l) /\ rep (recover s) l.
+Proof.
+  intros s l Hc [R|[b [Ht M]]].
+  - rewrite (recover_writes_rep _ _ R). unfold recover. rewrite (recover_writes_rep _ _ R). split.
+    + intro j. rewrite firstn_nil_crash. now left.
+    + exact R.
+  - split.
+    + intro j. apply (recover_mid s l b Hc Ht M j).
+    + unfold recover. rewrite <- (crash_all (7 + length (recover_writes s))) by lia.
+      apply (recover_mid s l b Hc Ht M). lia.
+Qed.
+
+(* any number of interrupted restarts, then one that completes *)
+Lemma faults_quasi : forall js s l, chain_ok l -> quasi s l -> quasi (faults js s) l.
+Proof.
+  induction js as [|j r IH]; intros s l Hc Q; cbn. exact Q.
+  apply IH; auto. now apply recover_quasi.
+Qed.
+
+Lemma faults_recover : forall js s l, chain_ok l -> quasi s l -> rep (recover (faults js s)) l.
+Proof. intros. apply recover_quasi; auto. now apply faults_quasi. Qed.
+
+(* ---------- removeFromCommonAncestor ---------- *)
+Lemma chain_head_at : forall b t n x, chain_ok (b :: t) -> (forall y, In y (b :: t) -> height y <= n) ->
+  findT n (b :: t) = Some x -> x = b.
+Proof.
+  intros b t n x Hc Hb H. rewrite findT_cons in H. destruct (N.eqb_spec (height b) n). congruence.
+  apply findT_some in H. destruct H as [Hi He].
+  pose proof (chain_ok_lt _ _ _ Hc Hi). pose proof (Hb b (or_introl eq_refl)). lia.
+Qed.
+
+Lemma drop_above_all_le : forall n l, (forall y, In y l -> height y <= n) -> drop_above n l = l.
+Proof.
+  intros n [|b t] H; cbn; auto. destruct (N.ltb_spec n (height b)); auto.
+  pose proof (H b (or_introl eq_refl)). lia.
+Qed.
+
+Lemma rfca_ok : forall fuel s l anc_h ht,
+  chain_ok l -> rep s l ->
+  (exists a, In a l /\ height a = anc_h) ->
+  (forall y, In y l -> height y <= ht) ->
+  (N.to_nat (ht - anc_h) <= fuel)%nat ->
+  let ws := rfca fuel s anc_h ht in
+  rep (apply ws s) (drop_above anc_h l) /\
+  (forall k, exists l', chain_ok l' /\ quasi (crash k ws s) l' /\ suffix l' l /\ suffix (drop_above anc_h l) l').
+Proof.
+  induction fuel as [|f IH]; intros s l anc_h ht Hc R Ha Hb Hf; cbn zeta.
+  - cbn. assert (ht <= anc_h) by lia.
+    rewrite drop_above_all_le by (intros y Hy; apply Hb in Hy; lia). split; auto.
+    intro k. exists l. rewrite firstn_nil_crash. split; [exact Hc|split; [now left|split; apply suffix_refl]].
+  - cbn [rfca]. destruct (N.leb_spec ht anc_h) as [Hle|Hgt].
+    { rewrite drop_above_all_le by (intros y Hy; apply Hb in Hy; lia). split; auto.
+      intro k. exists l. rewrite firstn_nil_crash. split; [exact Hc|split; [now left|split; apply suffix_refl]]. }
+    rewrite (r_height _ _ R). destruct (findT ht l) as [hdr|] eqn:E.
+    + destruct l as [|b t]; [contradiction|].
+      assert (hdr = b) by (eapply chain_head_at; eauto). subst hdr.
+      assert (Hhb : height b = ht) by (apply findT_some in E; tauto).
+      rewrite (r_hash _ _ R), findH_cons, N.eqb_refl.
+      destruct Ha as [a [Hia Hha]].
+      destruct t as [|p t'].
+      { destruct Hia as [<-|[]]. lia. }
+      assert (Hia' : In a (p :: t')). { destruct Hia as [<-|]; auto. lia. }
+      rewrite (remove_writes_head _ _ _ _ Hc R).
+      pose proof (rep_remove _ _ _ _ Hc R) as R'.
+      pose proof (chain_ok_tail _ _ _ Hc) as Hc'.
+      assert (Hb' : forall y, In y (p :: t') -> height y <= ht - 1).
+      { intros y Hy. pose proof (chain_ok_lt _ _ _ Hc Hy). lia. }
+      destruct (IH _ _ anc_h (ht - 1) Hc' R' (ex_intro _ a (conj Hia' Hha)) Hb' ltac:(lia)) as [IH1 IH2].
+      assert (Hd : drop_above anc_h (b :: p :: t') = drop_above anc_h (p :: t')).
+      { cbn [drop_above]. destruct (N.ltb_spec anc_h (height b)); auto. lia. }
+      rewrite Hd. split.
+      * rewrite apply_app. exact IH1.
+      * intro k. destruct (le_lt_dec k (length (remove_pfx b ++ [WCur p; WDelRmMark]))) as [Hk|Hk].
+        -- rewrite crash_app_l by auto.
+           pose proof (rem_crash _ _ _ _ Hc R k) as RC. rewrite (remove_writes_head _ _ _ _ Hc R) in RC.
+           destruct RC as [RC|RC].
+           ++ exists (b :: p :: t'). split; [exact Hc|split; [now left|split; [apply suffix_refl|]]].
+              rewrite <- Hd. apply drop_above_suffix.
+           ++ exists (p :: t'). split; [exact Hc'|split; [exact RC|split; [apply suffix_cons, suffix_refl|apply drop_above_suffix]]].
+        -- rewrite crash_app_r by lia. destruct (IH2 (k - length (remove_pfx b ++ [WCur p; WDelRmMark]))%nat)
+             as [l' [C1 [C2 [C3 C4]]]].
+           exists l'. split; [exact C1|split; [exact C2|split; [now apply suffix_cons|exact C4]]].
+    + assert (Hb' : forall y, In y l -> height y <= ht - 1).
+      { intros y Hy. pose proof (Hb y Hy). destruct (N.eq_dec (height y) ht) as [e|]; [|lia].
+        exfalso. eapply find_none in E; eauto. cbn in E. apply N.eqb_neq in E. auto. }
+      cbn [app apply fold_left]. apply (IH s l anc_h (ht - 1)); auto. lia.
+Qed.
+
+Lemma drop_above_at : forall l a, chain_ok l -> In a l -> exists rest, drop_above (height a) l = a :: rest.
+Proof.
+  induction l as [|b t IH]; intros a Hc Hi. contradiction.
+  destruct Hi as [<-|Hi].
+  - exists t. cbn. now rewrite N.ltb_irrefl.
+  - pose proof (chain_ok_lt _ _ _ Hc Hi) as Hlt. cbn [drop_above].
+    destruct (N.ltb_spec (height a) (height b)); [|lia].
+    destruct t as [|p t']; [contradiction|]. apply IH; auto. now apply chain_ok_tail in Hc.
+Qed.
+
+(* ---------- addBlockOnChain ---------- *)
+Definition futs_ok (fut : N -> option block) : Prop := forall h c, fut h = Some c -> U c.
+Definition qhd (l : list block) : N := match l with b :: _ => qn b | [] => 0 end.
+
+Lemma is_some_false : forall A (o : option A), is_some o = false -> o = None.
+Proof. now destruct o. Qed.
+
+Definition add_post (s : st) (l : list block) (b : block) (ws : list write) (r : result) (ex : bool) : Prop :=
+  (exists l', chain_ok l' /\ rep (apply ws s) l' /\ (ex = false -> qhd l <= qhd l') /\
+              (ex = false -> r = RSucc -> qn b <= qhd l')) /\
+  (forall top t, l = top :: t -> pre b = hash top -> findH (hash b) l = None -> ex = false -> r = RSucc) /\
+  (forall k, exists l'', chain_ok l'' /\ quasi (crash k ws s) l'').
+
+Lemma add_stay : forall s l b r, chain_ok l -> rep s l -> r <> RSucc ->
+  (forall top t, l = top :: t -> pre b = hash top -> findH (hash b) l = None -> False) ->
+  add_post s l b [] r false.
+Proof.
+  intros s l b r Hc R Hr Hx. split; [|split].
+  - exists l. cbn. split; auto. split; auto. split. lia. congruence.
+  - intros top t E1 E2 E3 _. exfalso. eauto.
+  - intro k. exists l. rewrite firstn_nil_crash. split; auto. now left.
+Qed.
+
+Lemma add_ok : forall fuel fut s l b, futs_ok fut -> chain_ok l -> rep s l -> U b ->
+  forall ws r ex, add_writes fuel fut s b = (ws, r, ex) -> add_post s l b ws r ex.
+Proof.
+  induction fuel as [|f IH]; intros fut s l b Hfut Hc R Ub ws r ex E.
+  { cbn in E. inversion E; subst. split; [|split].
+    - exists l. cbn. split; auto. split; auto. split; [lia|discriminate].
+    - discriminate.
+    - intro k. exists l. rewrite firstn_nil_crash. split; auto. now left. }
+  cbn [add_writes] in E. rewrite (r_cur _ _ R) in E.
+  destruct l as [|top t]; [contradiction|]. cbn [hd_error] in E.
+  rewrite !(r_hash _ _ R) in E.
+  destruct ((hash b =? hash top) || is_some (findH (hash b) (top :: t))) eqn:Eex.
+  { inversion E; subst. apply add_stay; auto. discriminate.
+    intros top' t' E1 E2 E3. inversion E1; subst top' t'. rewrite E3 in Eex. cbn in Eex.
+    rewrite orb_false_r in Eex. apply N.eqb_eq in Eex. rewrite findH_cons, Eex, N.eqb_refl in E3. discriminate. }
+  apply orb_false_elim in Eex. destruct Eex as [Ene Efr]. apply is_some_false in Efr. apply N.eqb_neq in Ene.
+  destruct (findH (pre b) (top :: t)) as [anc|] eqn:Eanc.
+  2:{ inversion E; subst. apply add_stay; auto. discriminate.
+      intros top' t' E1 E2 E3. inversion E1; subst top' t'.
+      rewrite E2, findH_cons, N.eqb_refl in Eanc. discriminate. }
+  apply findH_some in Eanc. destruct Eanc as [Hia Hha].
+  assert (Utop : U top) by (eapply chain_ok_U; eauto; now left).
+  (* the reorg continuation, used by two branches *)
+  assert (Reorg : qn top <= qn b -> pre b <> hash top -> forall ws r ex,
+    (let ws1 := rfca (N.to_nat (height top - height anc)) s (height anc) (height top) in
+     let '(ws2, r2, ex2) := add_writes f fut (apply ws1 s) b in (ws1 ++ ws2, r2, ex2)) = (ws, r, ex) ->
+    add_post s (top :: t) b ws r ex).
+  { intros Hq Hnp ws0 r0 ex0 E0. cbn zeta in E0.
+    assert (Hb : forall y, In y (top :: t) -> height y <= height top).
+    { intros y [<-|Hy]. lia. pose proof (chain_ok_lt _ _ _ Hc Hy). lia. }
+    destruct (rfca_ok (N.to_nat (height top - height anc)) s (top :: t) (height anc) (height top) Hc R
+                (ex_intro _ anc (conj Hia eq_refl)) Hb (le_n _)) as [R1 C1].
+    destruct (drop_above_at _ _ Hc Hia) as [rest Hd]. rewrite Hd in R1, C1.
+    set (ws1 := rfca (N.to_nat (height top - height anc)) s (height anc) (height top)) in *.
+    assert (Hs1 : suffix (anc :: rest) (top :: t)) by (rewrite <- Hd; apply drop_above_suffix).
+    assert (Hc1 : chain_ok (anc :: rest)) by (eapply chain_ok_suffix; eauto; discriminate).
+    destruct (add_writes f fut (apply ws1 s) b) as [[ws2 r2] ex2] eqn:E2. inversion E0; subst ws0 r0 ex0.
+    destruct (IH fut _ _ b Hfut Hc1 R1 Ub _ _ _ E2) as [[l' [P1 [P2 [P3 P4]]]] [P5 P6]].
+    assert (Hfr1 : findH (hash b) (anc :: rest) = None) by (eapply findH_suffix_none; eauto).
+    split; [|split].
+    - exists l'. rewrite apply_app. split; auto. split; auto.
+      assert (Hx : ex2 = false -> qn b <= qhd l').
+      { intro He. apply P4; auto. eapply P5; eauto. }
+      split; auto. intro He. cbn [qhd]. specialize (Hx He). lia.
+    - intros top' t' E1 E2' _ _. inversion E1; subst. congruence.
+    - intro k. destruct (le_lt_dec k (length ws1)) as [Hk|Hk].
+      + rewrite crash_app_l by auto. destruct (C1 k) as [l'' [Q1 [Q2 _]]]. eauto.
+      + rewrite crash_app_r by lia. apply P6. }
+  destruct (N.eqb_spec (pre b) (hash top)) as [Hpt|Hpt].
+  - (* extend the head *)
+    assert (Ht : top_ok (top :: t) b) by (constructor; auto; now exists top, t).
+    pose proof (rep_insert _ _ _ Hc Ht R) as R'.
+    destruct (top_facts _ b Hc Ht) as [p' [t' [E' [_ [_ [_ [_ [_ [Hc' _]]]]]]]]].
+    assert (Hq : qn top <= qn b) by (apply (U_child top b); auto).
+    destruct (fut (hash b)) as [c|] eqn:Ef.
+    + destruct (add_writes f fut (apply (insert_writes b) s) c) as [[ws2 r2] ex2] eqn:E2.
+      assert (Ew : ws = insert_writes b ++ ws2) by congruence.
+      assert (Er : r = RSucc) by congruence. assert (Ee : ex = ex2) by congruence. clear E. subst ws r ex.
+      destruct (IH fut _ _ c Hfut Hc' R' (Hfut _ _ Ef) _ _ _ E2) as [[l' [P1 [P2 [P3 P4]]]] [P5 P6]].
+      split; [|split].
+      * exists l'. rewrite apply_app. split; auto. split; auto. cbn [qhd] in *.
+        split; intros; specialize (P3 H); lia.
+      * reflexivity.
+      * intro k. destruct (le_lt_dec k (length (insert_writes b))) as [Hk|Hk].
+        -- rewrite crash_app_l by auto. destruct (ins_crash _ _ _ Hc Ht R k) as [Q|Q]; eauto.
+           exists (b :: top :: t). split; auto. now left.
+        -- rewrite crash_app_r by lia. apply P6.
+    + assert (Ew : ws = insert_writes b) by congruence.
+      assert (Er : r = RSucc) by congruence. assert (Ee : ex = false) by congruence. clear E. subst ws r ex.
+      split; [|split].
+      * exists (b :: top :: t). split; auto. split; auto. cbn [qhd]. split; intros; lia.
+      * reflexivity.
+      * intro k. destruct (ins_crash _ _ _ Hc Ht R k) as [Q|Q]; eauto.
+        exists (b :: top :: t). split; auto. now left.
+  - destruct (N.ltb_spec (qn b) (qn top)) as [Hlt|Hge].
+    { inversion E; subst. apply add_stay; auto. discriminate.
+      intros top' t' E1 E2 _. inversion E1; subst. congruence. }
+    destruct (N.ltb_spec (qn top) (qn b)) as [Hgt|Heq].
+    { apply Reorg; auto. }
+    rewrite (r_height _ _ R) in E.
+    destruct (findT (height anc + 1) (top :: t)) as [x|].
+    2:{ inversion E; subst. apply add_stay; auto. discriminate.
+        intros top' t' E1 E2 _. inversion E1; subst. congruence. }
+    destruct (pv_local_greater x b).
+    { inversion E; subst. apply add_stay; auto. discriminate.
+      intros top' t' E1 E2 _. inversion E1; subst. congruence. }
+    apply Reorg; auto.
+Qed.
+
+(* ---------- invariant over histories ---------- *)
+Lemma upd_futs_ok : forall fut k b, futs_ok fut -> U b -> futs_ok (upd fut k (Some b)).
+Proof.
+  intros fut k b H Ub h c. unfold upd. destruct (h =? k). intro E; inversion E; now subst. apply H.
+Qed.
+
+Lemma deliver_inv : forall fuel fut s b, futs_ok fut -> U b -> Inv s ->
+  Inv (fst (fst (deliver fuel fut s b))) /\ futs_ok (snd (fst (deliver fuel fut s b))).
+Proof.
+  intros fuel fut s b Hf Ub [l [Hc R]]. unfold deliver.
+  destruct (byHash s (pre b)). 2:{ cbn. split. now exists l. now apply upd_futs_ok. }
+  destruct (is_some (byHash s (hash b))). { cbn. split; auto. now exists l. }
+  destruct (add_writes fuel fut s b) as [[ws r] ex] eqn:E. cbn. split; auto.
+  destruct (add_ok fuel fut s l b Hf Hc R Ub _ _ _ E) as [[l' [P1 [P2 _]]] _]. now exists l'.
+Qed.
+
+Lemma run_inv : forall hist fuel fut s, Forall U hist -> futs_ok fut -> Inv s ->
+  Inv (fst (run fuel fut s hist)).
+Proof.
+  induction hist as [|b r IH]; intros fuel fut s HU Hf HI; cbn. exact HI.
+  inversion HU; subst. pose proof (deliver_inv fuel fut s b Hf H1 HI) as [D1 D2].
+  destruct (deliver fuel fut s b) as [[s' fut'] res]. cbn in *. now apply IH.
+Qed.
+
+Lemma inv_observables : forall s, Inv s ->
+  exists l hd, chain_ok l /\ cur s = Some hd /\ hd_error l = Some hd /\
+    (forall x, In x l -> byHash s (hash x) = Some x /\ byHeight s (height x) = Some x) /\
+    (forall h x, byHash s h = Some x -> In x l /\ hash x = h) /\
+    (forall n x, byHeight s n = Some x -> In x l /\ height x = n /\ height x <= height hd) /\
+    amark s = None /\ rmark s = None /\ head_openable s = true.
+Proof.
+  intros s [l [Hc R]]. destruct l as [|hd t]; [contradiction|]. exists (hd :: t), hd.
+  split; auto. split. now rewrite (r_cur _ _ R). split; auto. split; [|split; [|split; [|split; [|split]]]].
+  - intros x Hx. rewrite (r_hash _ _ R), (r_height _ _ R). split.
+    + destruct (findH (hash x) (hd :: t)) as [y|] eqn:E.
+      * apply findH_some in E. destruct E as [Hy He]. f_equal. apply U_inj; auto; eapply chain_ok_U; eauto.
+      * exfalso. eapply findH_none_in; eauto.
+    + destruct (findT (height x) (hd :: t)) as [y|] eqn:E.
+      * apply findT_some in E. destruct E as [Hy He]. f_equal.
+        clear - Hc Hx Hy He U_child U_inj. revert Hc Hx Hy. generalize (hd :: t). induction l as [|b l IH]; intros Hc Hx Hy. contradiction.
+        destruct Hx as [<-|Hx], Hy as [<-|Hy]; auto.
+        -- pose proof (chain_ok_lt _ _ _ Hc Hy). lia.
+        -- pose proof (chain_ok_lt _ _ _ Hc Hx). lia.
+        -- destruct l as [|p l']; [contradiction|]. apply IH; auto. now apply chain_ok_tail in Hc.
+      * exfalso. eapply find_none in E; eauto. cbn in E. now rewrite N.eqb_refl in E.
+  - intros h x E. rewrite (r_hash _ _ R) in E. now apply findH_some.
+  - intros n x E. rewrite (r_height _ _ R) in E. apply findT_some in E. destruct E as [Hi He].
+    split; auto. split; auto. destruct Hi as [<-|Hi]. lia. pose proof (chain_ok_lt _ _ _ Hc Hi). lia.
+  - exact (r_amark _ _ R).
+  - exact (r_rmark _ _ R).
+  - unfold head_openable. rewrite (r_cur _ _ R). cbn. apply (r_roots _ _ R). now left.
+Qed.
+
+(* ---------- crash safety, top level ---------- *)
+Lemma insert_crash_safe : forall s l b, chain_ok l -> top_ok l b -> rep s l -> forall k js,
+  let s' := recover (faults js (crash k (insert_writes b) s)) in rep s' l \/ rep s' (b :: l).
+Proof.
+  intros s l b Hc Ht R k js. cbn zeta.
+  destruct (top_facts _ b Hc Ht) as [p' [t' [E' [_ [_ [_ [_ [_ [Hc' _]]]]]]]]].
+  destruct (ins_crash _ _ _ Hc Ht R k) as [Q|Q].
+  - left. now apply faults_recover.
+  - right. apply faults_recover; auto. now left.
+Qed.
+
+Lemma remove_crash_safe : forall s b p t, chain_ok (b :: p :: t) -> rep s (b :: p :: t) -> forall k js,
+  let s' := recover (faults js (crash k (remove_writes s b) s)) in rep s' (b :: p :: t) \/ rep s' (p :: t).
+Proof.
+  intros s b p t Hc R k js. cbn zeta.
+  destruct (rem_crash _ _ _ _ Hc R k) as [Q|Q].
+  - left. apply faults_recover; auto. now left.
+  - right. apply faults_recover; auto. now apply chain_ok_tail in Hc.
+Qed.
+
+Lemma add_crash_safe : forall fuel fut s b, futs_ok fut -> U b -> Inv s -> forall k js,
+  Inv (recover (faults js (crash k (fst (fst (add_writes fuel fut s b))) s))).
+Proof.
+  intros fuel fut s b Hf Ub [l [Hc R]] k js.
+  destruct (add_writes fuel fut s b) as [[ws r] ex] eqn:E. cbn [fst].
+  destruct (add_ok fuel fut s l b Hf Hc R Ub _ _ _ E) as [_ [_ P]].
+  destruct (P k) as [l'' [Q1 Q2]]. exists l''. split; auto. now apply faults_recover.
+Qed.
+
+(* ---------- one head move: fork choice, weight, recovered head on the path ---------- *)
+Definition pvh_lt (x b : block) : Prop := pv x < pv b \/ (pv x = pv b /\ hash x < hash b).
+
+Inductive move (l : list block) (b : block) : list block -> result -> Prop :=
+| MStay : forall r, r <> RSucc -> move l b l r
+| MExtend : forall top t, l = top :: t -> pre b = hash top -> qn top <= qn b -> move l b (b :: l) RSucc
+| MReorg : forall front anc rest, l = front ++ anc :: rest -> front <> [] -> pre b = hash anc ->
+    (qhd l < qn b \/ (qhd l = qn b /\ exists x, findT (height anc + 1) l = Some x /\ pvh_lt x b)) ->
+    move l b (b :: anc :: rest) RSucc.
+
+Lemma add_extend : forall f fut s top t b, rep s (top :: t) -> pre b = hash top ->
+  findH (hash b) (top :: t) = None -> fut (hash b) = None ->
+  add_writes (S f) fut s b = (insert_writes b, RSucc, false).
+Proof.
+  intros f fut s top t b R Hp Hf Hfu. cbn [add_writes]. rewrite (r_cur _ _ R). cbn [hd_error].
+  rewrite !(r_hash _ _ R), Hf.
+  assert (Hne : hash b <> hash top).
+  { intro e. rewrite findH_cons, e, N.eqb_refl in Hf. discriminate. }
+  destruct (N.eqb_spec (hash b) (hash top)); [contradiction|]. cbn [orb is_some].
+  rewrite Hp, findH_cons, !N.eqb_refl, Hfu. reflexivity.
+Qed.
+
+Lemma add_move : forall f fut s l b, chain_ok l -> rep s l -> U b -> fut (hash b) = None ->
+  forall ws r ex, add_writes (S (S f)) fut s b = (ws, r, ex) ->
+  ex = false /\ exists l', chain_ok l' /\ rep (apply ws s) l' /\ move l b l' r /\
+  forall k js, exists l'', chain_ok l'' /\ rep (recover (faults js (crash k ws s))) l'' /\
+     (l'' = l' \/ (suffix l'' l /\ (r = RSucc -> findH (pre b) l'' <> None))).
+Proof.
+  intros f fut s l b Hc R Ub Hfu ws r ex E.
+  assert (Stay : forall r0, r0 <> RSucc -> ([] : list write, r0, false) = (ws, r, ex) ->
+    ex = false /\ exists l', chain_ok l' /\ rep (apply ws s) l' /\ move l b l' r /\
+    forall k js, exists l'', chain_ok l'' /\ rep (recover (faults js (crash k ws s))) l'' /\
+     (l'' = l' \/ (suffix l'' l /\ (r = RSucc -> findH (pre b) l'' <> None)))).
+  { intros r0 Hr E0. inversion E0; subst. split; auto. exists l. split; auto. split; auto.
+    split. now constructor. intros k js. exists l. rewrite firstn_nil_crash. split; auto. split; auto.
+    apply faults_recover; auto. now left. }
+  remember (S f) as f1. cbn [add_writes] in E. rewrite (r_cur _ _ R) in E.
+  destruct l as [|top t]; [contradiction|]. cbn [hd_error] in E.
+  rewrite !(r_hash _ _ R) in E.
+  destruct ((hash b =? hash top) || is_some (findH (hash b) (top :: t))) eqn:Eex.
+  { eapply Stay; eauto. discriminate. }
+  apply orb_false_elim in Eex. destruct Eex as [Ene Efr]. apply is_some_false in Efr. apply N.eqb_neq in Ene.
+  destruct (findH (pre b) (top :: t)) as [anc|] eqn:Eanc.
+  2:{ eapply Stay; eauto. discriminate. }
+  pose proof Eanc as Eanc0. apply findH_some in Eanc. destruct Eanc as [Hia Hha].
+  assert (Utop : U top) by (eapply chain_ok_U; eauto; now left).
+  assert (Reorg : (qn top < qn b \/ (qn top = qn b /\ exists x, findT (height anc + 1) (top :: t) = Some x /\ pvh_lt x b)) ->
+    pre b <> hash top -> forall ws r ex,
+    (let ws1 := rfca (N.to_nat (height top - height anc)) s (height anc) (height top) in
+     let '(ws2, r2, ex2) := add_writes f1 fut (apply ws1 s) b in (ws1 ++ ws2, r2, ex2)) = (ws, r, ex) ->
+    ex = false /\ exists l', chain_ok l' /\ rep (apply ws s) l' /\ move (top :: t) b l' r /\
+    forall k js, exists l'', chain_ok l'' /\ rep (recover (faults js (crash k ws s))) l'' /\
+     (l'' = l' \/ (suffix l'' (top :: t) /\ (r = RSucc -> findH (pre b) l'' <> None)))).
+  { intros Hw Hnp ws0 r0 ex0 E0. cbn zeta in E0.
+    assert (Hb : forall y, In y (top :: t) -> height y <= height top).
+    { intros y [<-|Hy]. lia. pose proof (chain_ok_lt _ _ _ Hc Hy). lia. }
+    destruct (rfca_ok (N.to_nat (height top - height anc)) s (top :: t) (height anc) (height top) Hc R
+                (ex_intro _ anc (conj Hia eq_refl)) Hb (le_n _)) as [R1 C1].
+    destruct (drop_above_at _ _ Hc Hia) as [rest Hd]. rewrite Hd in R1, C1.
+    set (ws1 := rfca (N.to_nat (height top - height anc)) s (height anc) (height top)) in *.
+    assert (Hs1 : suffix (anc :: rest) (top :: t)) by (rewrite <- Hd; apply drop_above_suffix).
+    assert (Hc1 : chain_ok (anc :: rest)) by (eapply chain_ok_suffix; eauto; discriminate).
+    assert (Hfr1 : findH (hash b) (anc :: rest) = None) by (eapply findH_suffix_none; eauto).
+    subst f1. rewrite (add_extend f fut _ anc rest b R1 (eq_sym Hha) Hfr1 Hfu) in E0.
+    assert (Ew : ws0 = ws1 ++ insert_writes b) by congruence.
+    assert (Er : r0 = RSucc) by congruence. assert (Ee : ex0 = false) by congruence. clear E0. subst ws0 r0 ex0.
+    assert (Ht1 : top_ok (anc :: rest) b) by (constructor; auto; now exists anc, rest).
+    destruct (top_facts _ b Hc1 Ht1) as [p' [t' [E' [_ [_ [_ [_ [_ [Hc' _]]]]]]]]].
+    split; auto. exists (b :: anc :: rest). split; auto. split.
+    { rewrite apply_app. now apply rep_insert. }
+    split.
+    { destruct Hs1 as [front Hfront]. apply (MReorg _ _ front anc rest); auto.
+      - intro e. subst front. cbn in Hfront. inversion Hfront; subst. congruence. }
+    intros k js. destruct (le_lt_dec k (length ws1)) as [Hk|Hk].
+    - rewrite crash_app_l by auto. destruct (C1 k) as [l'' [Q1 [Q2 [Q3 Q4]]]].
+      exists l''. split; auto. split. now apply faults_recover. right. split; auto.
+      intros _ e. apply (findH_none_in _ _ anc e); auto.
+      eapply suffix_in; eauto. now left.
+    - rewrite crash_app_r by lia. destruct (ins_crash _ _ _ Hc1 Ht1 R1 (k - length ws1)%nat) as [Q|Q].
+      + exists (anc :: rest). split; auto. split. now apply faults_recover. right. split; auto.
+        intros _. rewrite <- Hha, findH_cons, N.eqb_refl. discriminate.
+      + exists (b :: anc :: rest). split; auto. split; auto. apply faults_recover; auto. now left. }
+  destruct (N.eqb_spec (pre b) (hash top)) as [Hpt|Hpt].
+  - subst f1. clear Reorg Stay.
+    assert (Ht : top_ok (top :: t) b) by (constructor; auto; now exists top, t).
+    destruct (top_facts _ b Hc Ht) as [p' [t' [E' [_ [_ [_ [_ [_ [Hc' _]]]]]]]]].
+    rewrite Hfu in E. assert (Ew : ws = insert_writes b) by congruence.
+    assert (Er : r = RSucc) by congruence. assert (Ee : ex = false) by congruence. clear E. subst ws r ex.
+    split; auto. exists (b :: top :: t). split; auto. split. now apply rep_insert.
+    split. { apply (MExtend _ _ top t); auto. apply (U_child top b); auto. }
+    intros k js. destruct (insert_crash_safe _ _ _ Hc Ht R k js) as [Q|Q].
+    + exists (top :: t). split; auto. split; auto. right. split. apply suffix_refl.
+      intros _. rewrite Hpt, findH_cons, N.eqb_refl. discriminate.
+    + exists (b :: top :: t). auto.
+  - destruct (N.ltb_spec (qn b) (qn top)) as [Hlt|Hge].
+    { eapply Stay; eauto. discriminate. }
+    destruct (N.ltb_spec (qn top) (qn b)) as [Hgt|Heq].
+    { apply Reorg; auto. }
+    rewrite (r_height _ _ R) in E.
+    destruct (findT (height anc + 1) (top :: t)) as [x|] eqn:Ex.
+    2:{ eapply Stay; eauto. discriminate. }
+    destruct (pv_local_greater x b) eqn:Epv.
+    { eapply Stay; eauto. discriminate. }
+    apply Reorg; auto. right. split. lia. exists x. split; auto.
+    unfold pv_local_greater in Epv. apply orb_false_elim in Epv. destruct Epv as [E1 E2].
+    apply N.ltb_ge in E1. unfold pvh_lt.
+    destruct (N.eq_dec (pv x) (pv b)) as [e|ne]; [|left; lia].
+    right. split; auto. rewrite e, N.eqb_refl in E2. cbn in E2. apply N.ltb_ge in E2.
+    apply findT_some in Ex. destruct Ex as [Hix _].
+    pose proof (findH_none_in _ _ _ Efr Hix). lia.
+Qed.
+
+(* ---------- cumulative QN of the head never decreases (any futures, any recursion) ---------- *)
+Lemma add_qn_mono : forall fuel fut s b, futs_ok fut -> U b -> Inv s ->
+  forall ws r ex, add_writes fuel fut s b = (ws, r, ex) -> ex = false ->
+  forall hd hd', cur s = Some hd -> cur (apply ws s) = Some hd' -> qn hd <= qn hd'.
+Proof.
+  intros fuel fut s b Hf Ub [l [Hc R]] ws r ex E He hd hd' H1 H2.
+  destruct (add_ok fuel fut s l b Hf Hc R Ub _ _ _ E) as [[l' [P1 [P2 [P3 _]]]] _].
+  specialize (P3 He). rewrite (r_cur _ _ R) in H1. rewrite (r_cur _ _ P2) in H2.
+  destruct l as [|x l0]; [discriminate|]. destruct l' as [|x' l0']; [discriminate|].
+  cbn in H1, H2. inversion H1; inversion H2; subst. exact P3.
+Qed.
+
+Lemma rep_st_of : forall l, rep (st_of l) l.
+Proof.
+  intro l. constructor; cbn; auto.
+  intros x Hx. apply existsb_exists. exists x. split; auto. apply N.eqb_refl.
+Qed.
+
+End Universe.
